@@ -29,6 +29,9 @@ def BOUNDS(tier):
 def jobs(tier):
     out = []
     q = tier == "quick"
+    for shp in cr.scheme_shapes(["flat2", "nested3"], tier):
+        for which in ("3a", "3c"):
+            out.append(("%s.%s.P16384" % (which, shp), "job", dict(which=which, shape=shp, P=16384, K=1 if shp.startswith("nested3") else 2, order="reversed")))
     for which in ("3a", "3c"):
         for P in (16384, 32768, 65536):
             out.append(("%s.single.P%d" % (which, P), "job", dict(which=which, shape="single", P=P, K=4, order="reversed")))
